@@ -79,6 +79,8 @@ pub enum Action {
     /// Compact n's storage up to (applied - back).
     Compact { n: NodeId, back: u64 },
     SetKnob { n: NodeId, knob: Knob },
+    /// What-if sequence of legal MemStorageCore mutations on a scratch copy of n's storage state (C19).
+    StorageExercise { n: NodeId, seed: u64 },
     StorageFault { n: NodeId, log_unavailable: bool, snap_unavailable: bool },
     EntriesFetched { n: NodeId },
     /// Crash: the volatile state is lost; of the queued (un-fsynced) writes the first `keep`
